@@ -132,6 +132,15 @@ def run(tier, seed):
     rep = ('IFS((A1=1),"big",TRUE,"small")', ['ifs', '2', 'eq', 'ref', '0', 'lit', 'I1', 'lit', core.enc('big'), 'lit', 'T', 'lit', core.enc('small')])
     oth = ('IFS((A2=1),"big",TRUE,"small")', ['ifs', '2', 'eq', 'ref', '1', 'lit', 'I1', 'lit', core.enc('big'), 'lit', 'T', 'lit', core.enc('small')])
     fixed.append(('((%s&%s)&%s)' % (rep[0], oth[0], rep[0]), ['cat', 'cat'] + rep[1] + oth[1] + rep[1]))      # the first IFS again after a different one
+    # IF with literal TRUE / FALSE branches over conditions that are numbers, blanks and booleans (the result is the branch, never the condition)
+    for ci in COND_CELLS + NUM_CELLS:
+        for tb, fb in ((True, False), (False, True)):
+            t1, t2 = ('TRUE', 'FALSE') if tb else ('FALSE', 'TRUE')
+            e1, e2 = ('T', 'F') if tb else ('F', 'T')
+            base = ('IF(A%d,%s,%s)' % (ci + 1, t1, t2), ['if3', 'ref', str(ci), 'lit', e1, 'lit', e2])
+            fixed.append(base)
+            fixed.append(('(%s&"!")' % base[0], ['cat'] + base[1] + ['lit', core.enc('!')]))
+            fixed.append(('IF((%s=TRUE),"yes","no")' % base[0], ['if3', 'eq'] + base[1] + ['lit', 'T', 'lit', core.enc('yes'), 'lit', core.enc('no')]))
     for txt, toks in fixed:
         items.append((txt, toks))
         seen.add(txt)
